@@ -359,10 +359,13 @@ func fontDigest(ld *ot.Loader) (string, bool) {
 		fmt.Fprint(h, ft.Upem())
 		if ft.Cmap != nil {
 			it := ft.Cmap.Iter()
-			for n := 0; n < 3000 && it.Next(); n++ {
+			// order-independent: the iteration order of a format 0 cmap is Go map order
+			var acc uint64
+			for n := 0; n < 70000 && it.Next(); n++ {
 				r, g := it.Char()
-				fmt.Fprint(h, r, g)
+				acc += (uint64(r)*0x9E3779B97F4A7C15 + 1) * (uint64(g)*0xD1B54A32D192ED03 + 7)
 			}
+			fmt.Fprint(h, acc)
 		}
 		for g := font.GID(0); g < 64; g++ {
 			e, has := face.GlyphExtents(g)
